@@ -29,6 +29,19 @@ CLAIMED.update({
    design='5/C15'),
 })
 
+CLAIMED.update({
+ 'C02': dict(
+   technique='Lean 4 proof: ε-copy framing theorem by mutual structural induction (decEps ∘ enc describes the value, consumes exactly the bytes, borrows only at writer blocks), agreement with full copy on serialized streams; differential correspondence on ε-copy results printed from the real DeserType',
+   text='Kernel-checked: decEps_enc / deEps_ser (for every well-formed type, well-typed value, name and digest: from a buffer whose base is a multiple of every block unit, deserialize_eps returns a result whose erasure is the value and consumes exactly the bytes written), eps_full_agree_on_ser (both modes describe the same value and consume the same bytes on serialized streams). The correspondence prints ε-copy results through a Show trait implemented on the ε types themselves (borrowed slices/strs/refs with their offsets, rebuilt vectors, fully copied fields), so the substitution actually performed by rustc is compared with the model.',
+   note='agreement of the two modes on *arbitrary* byte strings is only exercised by the correspondence (mutated streams), not yet a theorem; zero-copy enums outside Ty.wf.',
+   design='5/C02'),
+ 'C12': dict(
+   technique='Lean 4 proof: both directions of placement by mutual structural induction (aligned ⇒ value, any misplaced block ⇒ AlignmentError at the first one), tied by running the real deserialize_eps at all 128 base residues',
+   text='Kernel-checked: eps_align_iff (deserialize_eps of a serialized stream at address base returns a value iff every zero-copy block lands on a multiple of its unit, AlignmentError otherwise), no_misaligned_ref (a returned value never contains a borrowed node off its unit), unit_implies_align, byte_aligned_anywhere. The run places real streams at every residue modulo 128 in a 128-aligned arena and compares outcome with the model and with the arithmetic on the real schema blocks.',
+   note='real addresses are modelled as base + offset; the harness measures real pointers.',
+   design='5/C12'),
+})
+
 NOT_YET = {
 }
 
